@@ -199,7 +199,7 @@ def scatter_sites(repo, col, cl, R, RS):
                 ix = ex.term(n.func.value.slice)
                 for kc in idx.KCS:
                     d = cl.domain(arr, kc)
-                    raw, remapped = _strip_drop_remap(ix, n, arr_node)
+                    raw, remapped = _strip_drop_remap(ix, n, ex.term(arr_node))
                     sp = cl.space(raw, kc)
                     if d is None or sp is None:
                         col.unk(R, fi, f"{unparse(n)[:80]} [{kc} key]", f"index space not derivable (domain {d}, index {sp})", node=n)
@@ -233,8 +233,14 @@ def _strip_drop_remap(ix: T, call: ast.Call, arr_node):
     if t.op == "mcall" and t.name == "where" and len(t.args) == 4:
         cond, repl, orig = t.args[1], t.args[2], t.args[3]
         # replacement must be out of range: len(<the array>) or <array>.shape[0]
-        out_of_range = (repl.op == "call" and repl.name == "len") or \
-            (repl.op == "sub" and repl.args[0].op == "attr" and repl.args[0].name == "shape")
+        # replacement must be out of range *for the array being written*: len(<that array>) or <that array>.shape[0]
+        target = None
+        if repl.op == "call" and repl.name == "len" and repl.args:
+            target = repl.args[0]
+        elif repl.op == "sub" and repl.args[0].op == "attr" and repl.args[0].name == "shape" and \
+                repl.args[1].op == "const" and repl.args[1].name == 0:
+            target = repl.args[0].args[0]
+        out_of_range = target is not None and (arr_node is None or target.key() == arr_node.key())
         neg = T.find(cond, lambda x: x.op == "cmp" and x.name == "<" and x.args[1].op == "const" and x.args[1].name == 0)
         return orig, bool(has_drop and out_of_range and neg is not None)
     return ix, False
